@@ -193,7 +193,7 @@ Qed.
 
 Lemma step_ok c e g o : Forall (member_ok c) g -> Forall (member_ok c) (fst (step c e g o)).
 Proof.
-  intro G. destruct o as [id|k ids|a v|a|k| | |id' a v| |a v k' e']; cbn [step]; try exact G.
+  intro G. destruct o as [id|k ids|a v|a|k| | |id' a v| |a v k' e'|]; cbn [step]; try exact G.
   - destruct (type_of e id) as [ty|] eqn:T; [|exact G].
     destruct (fresh e id) as [m|] eqn:Fr; [|exact G].
     destruct (accepts c ty) eqn:A; [|exact G]. cbn [fst].
@@ -242,7 +242,7 @@ Proof. intro F. induction F as [|m m' g g' (H & _) F IH]; cbn [map]; [reflexivit
 Lemma membership_stable c e g o : changes_membership o = false ->
   map mid (fst (step c e g o)) = map mid g.
 Proof.
-  intro H. destruct o as [id|k ids|a v|a|k| | |id' a v| |a v k' e']; try discriminate; cbn [step]; try reflexivity.
+  intro H. destruct o as [id|k ids|a v|a|k| | |id' a v| |a v k' e'|]; try discriminate; cbn [step]; try reflexivity.
   - destruct (find_descr c a) as [d|]; [|reflexivity].
     pose proof (set_sem_meta d v g) as F. destruct (set_sem d v g) as [g' o]. cbn [fst] in *.
     now apply same_meta_ids.
@@ -314,7 +314,7 @@ Qed.
 Lemma step_nodup c e g o : NoDup (map mid g) -> op_fresh g o = true -> NoDup (map mid (fst (step c e g o))).
 Proof.
   intros N Fr. destruct (changes_membership o) eqn:Ch.
-  - destruct o as [id|k ids|a v|a|k| | |id' a v| |a v k' e']; try discriminate; cbn [step op_fresh] in *.
+  - destruct o as [id|k ids|a v|a|k| | |id' a v| |a v k' e'|]; try discriminate; cbn [step op_fresh] in *.
     + destruct (type_of e id) as [ty|]; [|exact N].
       destruct (fresh e id) as [m|] eqn:F; [|exact N].
       destruct (accepts c ty); [|exact N]. cbn [fst]. rewrite map_app. cbn [map].
@@ -333,6 +333,95 @@ Proof.
   induction ops as [|o ops IH]; intros g N H; [exact N|].
   cbn [hist_fresh] in H. apply andb_true_iff in H as [H1 H2].
   rewrite exec_cons. apply IH; [now apply step_nodup | exact H2].
+Qed.
+
+(* ---- iteration, construction, member-list assignment ------------------------------------------- *)
+Lemma iterate_from_spec : forall rest pre fuel, (List.length rest < fuel)%nat ->
+  iterate_from fuel (Z.of_nat (List.length pre)) (pre ++ rest) = map mid rest.
+Proof.
+  induction rest as [|x rest IH]; intros pre fuel F; (destruct fuel as [|fuel]; [inversion F|]); cbn [iterate_from getitem_0d].
+  - rewrite app_nil_r. unfold norm_index.
+    replace ((0 <=? Z.of_nat (List.length pre)) && (Z.of_nat (List.length pre) <? Z.of_nat (List.length pre))) with false
+      by (symmetry; apply andb_false_iff; right; apply Z.ltb_ge; lia).
+    replace (Z.of_nat (List.length pre) <? 0) with false by (symmetry; apply Z.ltb_ge; lia).
+    reflexivity.
+  - unfold norm_index. rewrite app_length. cbn [List.length].
+    replace ((0 <=? Z.of_nat (List.length pre)) && (Z.of_nat (List.length pre) <? Z.of_nat (List.length pre + S (List.length rest)))) with true
+      by (symmetry; apply andb_true_iff; split; [apply Z.leb_le | apply Z.ltb_lt]; lia).
+    rewrite Nat2Z.id, nth_error_app2 by lia. rewrite Nat.sub_diag. cbn [nth_error map].
+    f_equal. specialize (IH (pre ++ [x]) fuel). rewrite app_length in IH. cbn [List.length] in IH.
+    rewrite <- app_assoc in IH. cbn [app] in IH.
+    replace (Z.of_nat (List.length pre) + 1) with (Z.of_nat (List.length pre + 1)) by lia.
+    apply IH. cbn [List.length] in F. lia.
+Qed.
+
+(* the iteration protocol (a loop over __getitem__ ended by IndexError) yields every member once, in order *)
+Lemma iterate_members c g : iterate c g = RMems (map mid g).
+Proof.
+  unfold iterate. destruct (c_flavour c); [|reflexivity].
+  f_equal. apply (iterate_from_spec g [] (S (List.length g))). lia.
+Qed.
+
+Definition addable (c : gcls) (e : env) (id : Z) : Prop :=
+  exists ty st, zlookup id (e_pool e) = Some (ty, st) /\ accepts c ty = true.
+
+(* observers given to the constructor (a loop of add_observer, base.py:55-60) become the members in
+   the order given, after whatever was there, each with the group as parent and not yet observed *)
+Lemma construct_adds_in_order c e : forall ids g, Forall (addable c e) ids ->
+  exists ms, exec c e g (map OAdd ids) = g ++ ms /\ map mid ms = ids
+             /\ Forall (fun m => mparent m = gid /\ mobs m = 0 /\ accepts c (mtype m) = true) ms.
+Proof.
+  induction ids as [|id ids IH]; intros g F.
+  - exists []. rewrite app_nil_r. repeat split; constructor.
+  - inversion F as [|? ? (ty & st & L & A) F']; subst. cbn [map]. rewrite exec_cons, (add_accepted c e g id ty st L A).
+    cbn [fst]. destruct (IH (g ++ [{| mid := id; mtype := ty; mparent := gid; mobs := 0; mstore := st |}]) F') as (ms & E & I & P).
+    eexists (_ :: ms). rewrite E, <- app_assoc. cbn [app]. split; [reflexivity|]. split; [cbn [map mid]; now rewrite I|].
+    constructor; [cbn; auto | exact P].
+Qed.
+
+Definition seq_kind_ok (c : gcls) (k : option kind) : bool :=
+  match c_flavour c, k with
+  | FObserver0D, Some KList | FObserver0D, Some KTuple | FBolometer, Some KList => true
+  | _, _ => false
+  end.
+
+Definition kept_or_fresh (e : env) (g : group) (m' : member) : Prop :=
+  mparent m' = gid /\
+  ((exists m, In m g /\ mid m = mid m' /\ mtype m = mtype m' /\ mobs m = mobs m' /\ mstore m = mstore m')
+   \/ fresh e (mid m') = Some m').
+
+Lemma members_for_kept e g : forall ids g', members_for e g ids = Some g' -> Forall (kept_or_fresh e g) g'.
+Proof.
+  induction ids as [|id t IH]; intros g' M; cbn [members_for] in M.
+  - injection M as <-. constructor.
+  - destruct (member_for e g id) as [m|] eqn:E1; [|discriminate].
+    destruct (members_for e g t) as [r|] eqn:E2; [|discriminate].
+    injection M as <-. constructor; [|now apply IH].
+    pose proof (member_for_id _ _ _ _ E1) as Hid.
+    unfold member_for in E1. destruct (find _ g) as [m0|] eqn:F.
+    + injection E1 as <-. split; [reflexivity|]. left. exists m0. apply find_some in F as [I _]. cbn. auto.
+    + split; [unfold fresh in E1; destruct (zlookup id (e_pool e)) as [[ty st]|]; [|discriminate]; now injection E1 as <- |].
+      right. now rewrite Hid.
+Qed.
+
+(* assigning the member list: the members become exactly the list given, in its order; an observer that
+   already was a member keeps its attribute values and observe count, a new one starts fresh; all have the
+   group as parent *)
+Lemma setmembers_accepted c e g k ids g' : seq_kind_ok c k = true -> all_accepted c e ids = true ->
+  members_for e g ids = Some g' ->
+  step c e g (OSetMembers k ids) = (g', ROk) /\ map mid g' = ids /\ Forall (kept_or_fresh e g) g'.
+Proof.
+  intros K A M. split; [|split; [eapply members_for_ids; eauto | eapply members_for_kept; eauto]].
+  cbn [step]. unfold seq_kind_ok in K.
+  destruct (c_flavour c), k as [[| |]|]; try discriminate K; cbn [negb]; now rewrite A, M.
+Qed.
+
+(* a member list of the wrong container kind is a TypeError and changes nothing *)
+Lemma setmembers_bad_kind c e g k ids : seq_kind_ok c k = false ->
+  step c e g (OSetMembers k ids) = (g, RErr EType).
+Proof.
+  intro K. cbn [step]. unfold seq_kind_ok in K.
+  destruct (c_flavour c), k as [[| |]|]; try discriminate K; reflexivity.
 Qed.
 
 (* a value written on a member directly (not through the group) is what the group reads next *)
